@@ -61,14 +61,17 @@ InstallBegin ==
 
 InLib == s.phase \in {"install", "drop"}
 
+\* C04: the process-wide guard is held at every OS-level step of an installation or a drop
+Held == Req("C04", Ev.lock = 1)
+
 Mmap ==
-  /\ Step("Mmap") /\ InLib
+  /\ Step("Mmap") /\ InLib /\ Held
   /\ Req("C12", s.phase = "install")
   /\ s' = IF Ev.ok THEN [s EXCEPT !.pend = @ \cup {Ev.name}, !.touched = TRUE] ELSE s
 
 \* giving back a mapping: it must be one the injector owns and has not given back yet
 Munmap ==
-  /\ Step("Munmap") /\ InLib
+  /\ Step("Munmap") /\ InLib /\ Held
   /\ Req("C12", ~Ev.foreign /\ Ev.name \in (s.pend \cup s.live \cup s.orphans))
   /\ Req("C12", Ev.name \in s.live => s.phase = "drop")
   /\ Req("C03", ~Ev.foreign)         \* memory the injector does not own is never given back on its behalf
@@ -101,12 +104,12 @@ WriteOther ==
   /\ s' = s
 
 Flush ==
-  /\ Step("Flush")
+  /\ Step("Flush") /\ (InLib => Held)
   /\ LET cov == UNION {Locs(c.name, c.lo..c.hi) : c \in Elems(Ev.covers)} IN
        s' = [s EXCEPT !.dirty = @ \ cov]
 
 Mprotect ==
-  /\ Step("Mprotect") /\ InLib
+  /\ Step("Mprotect") /\ InLib /\ Held
   /\ s' = IF Ev.ret = 0 /\ Ev.writable
           THEN [s EXCEPT !.rwp = @ \cup {<<c.name, c.page>> : c \in Elems(Ev.covers)}]
           ELSE s
